@@ -378,6 +378,40 @@ def profile_C15(g, tier):
     return scen
 
 
+STEP_POOL = ["check", "get", "set", "unset", "push", "pop", "boot", "shutdown", "download", "upload", "control", "noop",
+             "create", "clean", "collect"]
+STEP_STATE_PARAM = {"check": "check_state", "get": "get_state", "set": "set_state", "unset": "unset_state",
+                    "push": "push_state", "pop": "pop_state"}
+
+
+def profile_C20(g, tier):
+    selected = g.pick("selected", [["vm1"], ["vm2"], ["vm1", "vm2"], ["vm1", "vm2", "vm3"], ["vm2", "vm3"], ["vm1", "vm3"]])
+    nets = g.pick("nets", ["net1", "net1 net2", "net2 net4", "net1 net2 net3", "net3 net5 net1", "net1 cluster1.net6", "net0"])
+    n = g.pick("nsteps", [1, 1, 2, 3, 4])
+    chain = [g.pick(f"step{i}", STEP_POOL) for i in range(n)]
+    argv = ["setup=" + ",".join(chain), "vms=" + ",".join(selected), "nets=" + nets.replace(" ", ",")]
+    vm_strs = {"vm1": "only CentOS\n", "vm2": "only Win10\n", "vm3": "only Ubuntu\n"}
+    if g.chance("variant", 0.3):
+        argv.append("only_vm1=Fedora")
+        vm_strs["vm1"] = "only Fedora\n"
+    step_params = {}
+    for step in set(chain):
+        if step in STEP_STATE_PARAM and g.chance(f"param{step}", 0.7):
+            typ = g.pick(f"ptyp{step}", ["vms", "images"])
+            key = f"{STEP_STATE_PARAM[step]}_{typ}"
+            value = g.pick(f"pval{step}", ["customize", "on_customize", "mystate", "s.1"])
+            argv.append(f"{key}={value}")
+            step_params[key] = value
+    fam = {"durations": g.pick("durations", ["ties", "spread", "unit"]), "p_pop_shared": g.pick("ppop", [1.0, 1.0, 0.5])}
+    if g.chance("failing", 0.4):
+        fam["p_fail"] = g.pick("p_fail", [0.2, 0.5])
+        fam["statuses"] = ["FAIL", "ERROR"]
+    scen = {"tool": "manu", "tests": "-", "argv": argv, "chain": chain, "selected_vms": selected,
+            "vm_strs": {vm: vm_strs[vm] for vm in selected}, "nets": nets, "mode": "eager",
+            "params": {}, "step_params": step_params, "families": fam, "epochs": [{}]}
+    return scen
+
+
 PROFILES = {
     "C01": profile_C01,
     "C02": profile_C02,
@@ -391,4 +425,5 @@ PROFILES = {
     "C08": profile_C08,
     "C10": profile_C10,
     "C15": profile_C15,
+    "C20": profile_C20,
 }
